@@ -157,7 +157,11 @@ def check_case(case):
             j += 1
         for a, c in zip(tcol, tcol[1:]):
             if not c > a:
-                return Result(False, "C48.times.not_increasing", "output times %r then %r" % (a, c), sample=sample)
+                rr = Result(False, "C48.times.not_increasing", "output times %r then %r" % (a, c), sample=sample)
+                # (two rows with the same 15 digits time: signature of the known 'end of period missed' class when
+                # that time is the end of a short period, see check_case_keyed)
+                rr.failing_time, rr.nsub = c, (nsub if verbose != "quiet" else None)
+                return rr
     for i, t in zip(idx, times):
         e = abs(rows[i][0] - t)
         errs["time"] = max(errs.get("time", 0.), e / ttol)
